@@ -127,8 +127,12 @@ def stmt_expr(beta: Beta, s, site_expr: str, reflect: bool, x_expr: str | None =
     x = x_expr or repr(beta.val(s["x"]))
     op = s["op"]
     S = site_expr
-    if op in ("none", "chg"):
+    if op in ("none", "chg", "raise"):
         return S
+    if op == "lebot":
+        return f"{S} >= _Bot()" if reflect else f"_Bot() <= {S}"
+    if op == "gebot":
+        return f"{S} <= _Bot()" if reflect else f"_Bot() >= {S}"
     if op == "eq":
         return f"{S} == {x}" if reflect else f"{x} == {S}"
     if op == "le":
@@ -148,6 +152,7 @@ def stmt_expr(beta: Beta, s, site_expr: str, reflect: bool, x_expr: str | None =
 
 
 HEADER = "from inline_snapshot import snapshot\nimport verif_rec as _r\n\n"
+BOT = "class _Bot:\n    pass\n\n\n"
 CHG_WRAPPER = "[{t}, {t2}][_chg[{i}]]"
 
 
@@ -176,6 +181,8 @@ def render(ops, srcs, prog, beta: Beta, imp: bool, rng: random.Random, placement
         if has_chg(prog, i):
             beta.site_wrapper[i] = CHG_WRAPPER
     out = [HEADER]
+    if any(s["op"] in ("lebot", "gebot") for t in prog for s in t):
+        out.append(BOT)
     if has_chg(prog):
         out.append("_chg = {%s}\n\n" % ", ".join("%d: 0" % i for i in range(1, n + 1)))
     texts = [src_text(beta, op, src, i) for i, (op, src) in enumerate(zip(ops, srcs), 1)]
@@ -219,16 +226,18 @@ def render(ops, srcs, prog, beta: Beta, imp: bool, rng: random.Random, placement
             refl = rng.random() < 0.5
             site = f"s{s['site']}()"
             xe = None
-            if mutate and s["op"] not in ("none", "chg"):
+            if mutate and s["op"] not in ("none", "chg", "raise", "lebot", "gebot"):
                 out.append(f"    _set(_o, {beta.val(s['x'])!r})\n")
                 xe = "_o"
-            if placement == "param" and s["op"] not in ("none", "chg"):
+            if placement == "param" and s["op"] not in ("none", "chg", "raise"):
                 e = "_cmp(lambda _s: %s, %s)" % (stmt_expr(beta, s, "_s", refl, xe), site)
             else:
                 e = stmt_expr(beta, s, site, refl, xe)
             out.append(f"    with _r.at({ti}, {j}):\n")
             if s["op"] == "none":
                 out.append(f"        {e}\n")
+            elif s["op"] == "raise":
+                out.append("        raise ValueError('raised by the test itself')\n")
             elif s["op"] == "chg":
                 out.append(f"        _chg[{s['site']}] = 1\n        try:\n            {e}\n"
                            f"        finally:\n            _chg[{s['site']}] = 0\n")
@@ -236,7 +245,7 @@ def render(ops, srcs, prog, beta: Beta, imp: bool, rng: random.Random, placement
                 out.append(f"        assert {e}\n")
             else:
                 out.append(f"        _r.val({e})\n")
-            if mutate and s["op"] not in ("none", "chg"):
+            if mutate and s["op"] not in ("none", "chg", "raise", "lebot", "gebot"):
                 # mutate the object that was just compared (the next comparison sets it again)
                 out.append(f"    _set(_o, {beta.val((s['x'] + 1) % len(beta.atoms))!r})\n")
         out.append("\n\n")
